@@ -34,6 +34,12 @@ func runC06(o *opts) (*summary, error) {
 	w.only = parseOnly(o.extraArg("only"))
 	rng := rand.New(rand.NewSource(o.seed))
 	g := &G{r: rng, inDomain: true}
+	// (optional) the reply layouts: half of the calls are ANSWERED with a well-formed reply - an operation that goes on to
+	// make a second exchange of its own accord when it likes (or dislikes) the answer is not "one request per call"
+	var lt *layoutTables
+	if x := o.extraArg("layouts"); x != "" {
+		lt, _ = loadLayouts(x)
+	}
 	const serial = 405419896
 	addrKinds := map[string]string{"none": "", "zeroip": "0.0.0.0:60000", "port0": "192.168.1.100:0", "valid": "192.168.1.100:60000", "altport": "10.1.2.3:54321"}
 	nconf := 0
@@ -56,6 +62,19 @@ func runC06(o *opts) (*summary, error) {
 							continue
 						}
 						cs := g.call(op, serial)
+						d.script = nil
+						if l, ok := ltRsp(lt, op); ok && rng.Intn(2) == 0 {
+							d.script = func(method string, req []byte) [][]byte {
+								m := l.message(rng, 0x17, req[4:8], "valid", nil)
+								switch op {
+								case "GetCardByID":
+									copy(m[8:12], req[8:12])
+								case "GetTimeProfile":
+									m[8] = req[8]
+								}
+								return [][]byte{m}
+							}
+						}
 						rec := doCall(u, d, cs)
 						rec["cfg"] = p
 						w.put(rec, "route-"+kind, fmt.Sprintf("%s/%s/%s/%s/%s", op, kind, proto, bind, bc))
@@ -67,4 +86,12 @@ func runC06(o *opts) (*summary, error) {
 	s := w.close()
 	s.Extra = map[string]any{"configurations": nconf}
 	return s, nil
+}
+
+func ltRsp(lt *layoutTables, op string) (layout, bool) {
+	if lt == nil || op == "GetDevices" || op == "SetAddress" {
+		return layout{}, false
+	}
+	l, ok := lt.Rsp[op]
+	return l, ok
 }
